@@ -1,27 +1,32 @@
 (* Implementation model of kappadata/samplers/interleaved_sampler.py
-   (InterleavedSampler.__init__ checkpoint derivation, __iter__, _eval_loop,
-   _training_loop, _InterleavedBatchSampler.__iter__, _InterleavedConcatDataset
-   index resolution).  Mirrors the code statement by statement; no proofs here. *)
+   (InterleavedSampler.__init__ with all its assertions and the checkpoint
+   derivation, index_offsets, __iter__, _eval_loop, _training_loop incl. its
+   batch-size adjustment branches, _InterleavedBatchSampler.__iter__,
+   _InterleavedConcatDataset.__getitem__, _InterleavedCollator.__call__).
+   Mirrors the code statement by statement; no proofs here. *)
 From Coq Require Import ZArith List Bool.
 Import ListNotations.
 Open Scope Z_scope.
 
-Inductive budget := Epochs (e : Z) | Updates (u : Z) | Samples (s : Z).
-
 (* one InterleavedSamplerConfig: the three optional intervals, optional batch
-   size, the sampler's iteration (same list on every pass), len(config.sampler)
+   size, the sampler's iterations ([sidx k] = what the k-th
+   "for interleaved_idx in config.sampler" over this sampler object yields: a
+   shuffling sampler yields another order on every pass), len(config.sampler)
    and len(data_source) *)
 Record side_cfg := {
   ene : option Z; enu : option Z; ens : option Z; sbs : option Z;
-  sidx : list Z; slen : Z; dslen : Z }.
+  sidx : nat -> list Z; slen : Z; dslen : Z }.
 
+(* the attributes of a constructed InterleavedSampler that the loops read;
+   bE/bU/bS = self.epochs / self.updates / self.samples (the loops test each of
+   them for "is not None", the constructor asserts that exactly one is given) *)
 Record cfg := {
   cN : Z;            (* len(main_sampler) *)
-  dsN : Z;          (* len(data_source of main sampler) *)
+  dsN : Z;           (* len(data_source of main sampler) *)
   cB : Z;            (* batch_size *)
   drop_last : bool;
   cD : option Z;     (* drop_last_batch_size *)
-  bud : budget;
+  bE : option Z; bU : option Z; bS : option Z;
   sides : list side_cfg }.
 
 (* observable events: set_epoch calls received by the main sampler and the
@@ -32,20 +37,51 @@ Inductive event :=
 | Main (full : bool) (idx : Z)
 | Side (cfgidx : nat) (full : bool) (idx : Z).
 
-Inductive obs := OSetEpoch (e : Z) | OYield (full : bool) (idx : Z).
+(* OSideSetEpoch: a set_epoch call received by a side sampler; the code never
+   makes one, so the model never produces it *)
+Inductive obs := OSetEpoch (e : Z) | OYield (full : bool) (idx : Z) | OSideSetEpoch (ci : nat) (e : Z).
 
 Definition or_default (o : option Z) (d : Z) : Z := match o with Some x => x | None => d end.
+Definition is_some {A} (o : option A) : bool := match o with Some _ => true | None => false end.
+Definition opt_test (o : option Z) (p : Z -> bool) : bool := match o with Some x => p x | None => false end.
 
-(* samples_per_epoch of _training_loop (the len<batch_size adjustments are
-   unreachable: the constructor asserts batch_size <= dlbs <= len) *)
+(* ---- constructor: samples / updates per epoch ("infer full start checkpoint") ---- *)
 Definition spe (c : cfg) : Z :=
   if drop_last c then let bs := or_default (cD c) (cB c) in cN c / bs * bs else cN c.
 
-(* updates per epoch as computed by the constructor *)
 Definition upe (c : cfg) : Z :=
   if drop_last c then spe c / cB c else (cN c + cB c - 1) / cB c.
 
-(* index_offsets[config_idx] *)
+(* ---- _training_loop prologue: (self.batch_size after the "len < batch size"
+   adjustments, samples_per_epoch).  Under the constructor's assertions the
+   adjustment branches are dead (Arith.loop_geom_eq). ---- *)
+Definition loop_geom (c : cfg) : Z * Z :=
+  if drop_last c then
+    match cD c with
+    | Some d =>
+        let '(d', b') :=
+          if cN c <? d then
+            let factor := d / cB c in
+            let d' := cN c - cN c mod factor in (d', d' / factor)
+          else (d, cB c) in
+        (b', cN c / d' * d')
+    | None =>
+        let b' := if cN c <? cB c then cN c else cB c in
+        (b', cN c / b' * b')
+    end
+  else (cB c, cN c).
+Definition lB (c : cfg) : Z := fst (loop_geom c).
+Definition lspe (c : cfg) : Z := snd (loop_geom c).
+
+(* ---- index_offsets as the constructor builds it: [len(main data source)],
+   then one more entry per config of configs[:-1] ---- *)
+Fixpoint index_offsets_from (acc : Z) (l : list side_cfg) : list Z :=
+  match l with [] => [] | sc :: l' => (acc + dslen sc) :: index_offsets_from (acc + dslen sc) l' end.
+Definition index_offsets (c : cfg) : list Z :=
+  dsN c :: index_offsets_from (dsN c) (removelast (sides c)).
+
+(* index_offsets[config_idx] for config_idx = 0 .. len(configs)-1, as the loops
+   read it (equal to index_offsets when there is a config: Sides.index_offsets_eq) *)
 Fixpoint offsets_from (acc : Z) (l : list side_cfg) : list Z :=
   match l with [] => [] | sc :: l' => acc :: offsets_from (acc + dslen sc) l' end.
 Definition offsets (c : cfg) : list Z := offsets_from (dsN c) (sides c).
@@ -58,8 +94,9 @@ Fixpoint side_pass_aux (ci : nat) (ibs len_ off k : Z) (l : list Z) : list event
       let k' := k + 1 in
       Side ci ((k' mod ibs =? 0) || (k' =? len_)) (off + i) :: side_pass_aux ci ibs len_ off k' l'
   end.
-Definition side_pass (c : cfg) (ci : nat) (off : Z) (sc : side_cfg) : list event :=
-  side_pass_aux ci (or_default (sbs sc) (cB c)) (slen sc) off 0 (sidx sc).
+(* p = how often this config's sampler was iterated before *)
+Definition side_pass (c : cfg) (ci : nat) (off : Z) (sc : side_cfg) (p : nat) : list event :=
+  side_pass_aux ci (or_default (sbs sc) (lB c)) (slen sc) off 0 (sidx sc p).
 
 (* should_iter for one config after the counters were increased *)
 Definition should_iter (sc : side_cfg) (epoch_end : bool) (epoch update sample salu : Z) : bool :=
@@ -69,23 +106,25 @@ Definition should_iter (sc : side_cfg) (epoch_end : bool) (epoch update sample s
       | Some n => (sample mod n =? 0) || (salu / n <? sample / n)
       | None => false end).
 
-Fixpoint sides_pass (c : cfg) (ci : nat) (offs : list Z) (l : list side_cfg)
-         (epoch_end : bool) (epoch update sample salu : Z) : list event :=
-  match l, offs with
-  | sc :: l', off :: offs' =>
-      (if should_iter sc epoch_end epoch update sample salu then side_pass c ci off sc else [])
-      ++ sides_pass c (S ci) offs' l' epoch_end epoch update sample salu
-  | _, _ => []
+(* "for config_idx, config in enumerate(self.configs)"; pcs = per config, how
+   often its sampler was iterated so far (the sampler objects' own state) *)
+Fixpoint sides_pass (c : cfg) (ci : nat) (offs : list Z) (l : list side_cfg) (pcs : list nat)
+         (epoch_end : bool) (epoch update sample salu : Z) : list event * list nat :=
+  match l, offs, pcs with
+  | sc :: l', off :: offs', p :: pcs' =>
+      let it := should_iter sc epoch_end epoch update sample salu in
+      let '(evs, pcs'') := sides_pass c (S ci) offs' l' pcs' epoch_end epoch update sample salu in
+      ((if it then side_pass c ci off sc p else []) ++ evs, (if it then S p else p) :: pcs'')
+  | _, _, _ => ([], [])
   end.
 
+(* "check if end is reached" *)
 Definition budget_reached (c : cfg) (epoch update sample : Z) : bool :=
-  match bud c with
-  | Epochs e => epoch =? e
-  | Updates u => update =? u
-  | Samples s => s <=? sample
-  end.
+  opt_test (bE c) (fun e => epoch =? e)
+  || opt_test (bU c) (fun u => update =? u)
+  || opt_test (bS c) (fun s => s <=? sample).
 
-Record st := { epoch : Z; update : Z; sample : Z; siu : Z; salu : Z }.
+Record st := { epoch : Z; update : Z; sample : Z; siu : Z; salu : Z; pcs : list nat }.
 
 Inductive status := Done | EpochBreak | Exhausted.
 
@@ -97,17 +136,17 @@ Fixpoint epoch_loop (c : cfg) (l : list Z) (sie : Z) (s : st) : list event * st 
       let sample' := sample s + 1 in
       let sie' := sie + 1 in
       let siu' := siu s + 1 in
-      if (siu' =? cB c) || (sie' =? spe c) then
+      if (siu' =? lB c) || (sie' =? lspe c) then
         let update' := update s + 1 in
-        let epoch_end := sie' =? spe c in
+        let epoch_end := sie' =? lspe c in
         let epoch' := if epoch_end then epoch s + 1 else epoch s in
-        let passes := sides_pass c 0 (offsets c) (sides c) epoch_end epoch' update' sample' (salu s) in
-        let s' := {| epoch := epoch'; update := update'; sample := sample'; siu := 0; salu := sample' |} in
+        let '(passes, pcs') := sides_pass c 0 (offsets c) (sides c) (pcs s) epoch_end epoch' update' sample' (salu s) in
+        let s' := {| epoch := epoch'; update := update'; sample := sample'; siu := 0; salu := sample'; pcs := pcs' |} in
         if budget_reached c epoch' update' sample' then (Main true i :: passes, s', Done)
         else if epoch_end then (Main true i :: passes, s', EpochBreak)
         else let '(evs, s'', stt) := epoch_loop c l' sie' s' in (Main true i :: passes ++ evs, s'', stt)
       else
-        let s' := {| epoch := epoch s; update := update s; sample := sample'; siu := siu'; salu := salu s |} in
+        let s' := {| epoch := epoch s; update := update s; sample := sample'; siu := siu'; salu := salu s; pcs := pcs s |} in
         let '(evs, s'', stt) := epoch_loop c l' sie' s' in (Main false i :: evs, s'', stt)
   end.
 
@@ -127,49 +166,113 @@ Fixpoint run (c : cfg) (main_iter : Z -> list Z) (fuel : nat) (s : st) : option 
   end.
 
 (* _eval_loop *)
-Fixpoint eval_loop (c : cfg) (ci : nat) (offs : list Z) (l : list side_cfg) : list event :=
-  match l, offs with
-  | sc :: l', off :: offs' => side_pass c ci off sc ++ eval_loop c (S ci) offs' l'
-  | _, _ => []
+Fixpoint eval_loop (c : cfg) (ci : nat) (offs : list Z) (l : list side_cfg) (pcs : list nat) : list event :=
+  match l, offs, pcs with
+  | sc :: l', off :: offs', p :: pcs' => side_pass c ci off sc p ++ eval_loop c (S ci) offs' l' pcs'
+  | _, _, _ => []
   end.
 
+(* "self.epochs == 0 or self.updates == 0 or self.samples == 0" *)
 Definition zero_budget (c : cfg) : bool :=
-  match bud c with Epochs e => e =? 0 | Updates u => u =? 0 | Samples s => s =? 0 end.
+  opt_test (bE c) (fun e => e =? 0) || opt_test (bU c) (fun u => u =? 0) || opt_test (bS c) (fun s => s =? 0).
 
+(* ---- the constructor ---- *)
 Inductive start_arg := NoStart | StartEpoch (e : Z) | StartUpdate (u : Z) | StartSample (s : Z).
-Inductive ctor_result := Start (e u s : Z) | NotImplemented | AssertFail.
+Inductive start_result := Start (e u s : Z) | NotImplemented | AssertFail.
 
-(* the constructor's derivation of (start_epoch, start_update, start_sample) *)
-Definition init_checkpoint (c : cfg) (a : start_arg) : ctor_result :=
+(* "infer full start checkpoint from one of epoch/update/sample": the
+   if / elif / elif / else chain with its assertions *)
+Definition checkpoint (c : cfg) (se su ss : option Z) : start_result :=
+  match se with
+  | Some e =>
+      if is_some su || is_some ss then AssertFail
+      else Start e (upe c * e) (spe c * e)
+  | None =>
+      match su with
+      | Some u =>
+          if is_some ss then AssertFail
+          else if negb (u mod upe c =? 0) || negb (drop_last c) then NotImplemented
+          else Start (u / upe c) u (u * cB c)
+      | None =>
+          match ss with
+          | Some s =>
+              if negb (s mod cB c =? 0) then AssertFail
+              else let u := s / cB c in
+                   if negb (u mod upe c =? 0) || negb (drop_last c) then NotImplemented
+                   else Start (u / upe c) u s
+          | None => Start 0 0 0
+          end
+      end
+  end.
+
+Definition start_opts (a : start_arg) : option Z * option Z * option Z :=
   match a with
-  | NoStart => Start 0 0 0
-  | StartEpoch e => Start e (upe c * e) (spe c * e)
-  | StartUpdate u =>
-      if negb (u mod upe c =? 0) || negb (drop_last c) then NotImplemented
-      else Start (u / upe c) u (u * cB c)
-  | StartSample s =>
-      if negb (s mod cB c =? 0) then AssertFail
-      else let u := s / cB c in
-           if negb (u mod upe c =? 0) || negb (drop_last c) then NotImplemented
-           else Start (u / upe c) u s
+  | NoStart => (None, None, None)
+  | StartEpoch e => (Some e, None, None)
+  | StartUpdate u => (None, Some u, None)
+  | StartSample s => (None, None, Some s)
   end.
+Definition init_checkpoint (c : cfg) (a : start_arg) : start_result :=
+  let '(se, su, ss) := start_opts a in checkpoint c se su ss.
 
-Definition init_state (e u s : Z) : st :=
-  {| epoch := e; update := u; sample := s; siu := 0; salu := s |}.
+(* the raw constructor arguments (all integers: the isinstance checks are not modelled) *)
+Record ctor_args := {
+  a_N : Z; a_dsN : Z; a_B : Z; a_drop_last : bool; a_D : option Z;
+  a_epochs : option Z; a_updates : option Z; a_samples : option Z;
+  a_start_epoch : option Z; a_start_update : option Z; a_start_sample : option Z;
+  a_sides : list side_cfg }.
 
-(* fuel that always suffices (proved in Proofs.v): remaining budget *)
+Inductive ctor_result := Ok (c : cfg) (e u s : Z) | CNotImplemented | CAssertFail.
+
+Definition opt_pos (o : option Z) : bool := match o with Some x => 0 <? x | None => true end.
+Definition opt_nonneg (o : option Z) : bool := match o with Some x => 0 <=? x | None => true end.
+Definition b2n (b : bool) : nat := if b then 1%nat else 0%nat.
+
+(* the per-config assertions *)
+Definition side_asserts (sc : side_cfg) : bool :=
+  (is_some (ene sc) || is_some (enu sc) || is_some (ens sc))
+  && opt_pos (ene sc) && opt_pos (enu sc) && opt_pos (ens sc) && opt_pos (sbs sc).
+
+Definition cfg_of_args (a : ctor_args) : cfg :=
+  {| cN := a_N a; dsN := a_dsN a; cB := a_B a; drop_last := a_drop_last a; cD := a_D a;
+     bE := a_epochs a; bU := a_updates a; bS := a_samples a; sides := a_sides a |}.
+
+(* InterleavedSampler.__init__: the assertions in source order, then the checkpoint *)
+Definition ctor (a : ctor_args) : ctor_result :=
+  if negb (0 <? a_B a) then CAssertFail
+  else if negb (a_B a <=? a_N a) then CAssertFail
+  else if negb (match a_D a with
+                | Some d => (a_drop_last a && (d mod a_B a =? 0)) && (a_B a <=? d) && (d <=? a_N a)
+                | None => true end) then CAssertFail
+  else if negb (opt_nonneg (a_epochs a)) then CAssertFail
+  else if negb (opt_nonneg (a_updates a)) then CAssertFail
+  else if negb (opt_nonneg (a_samples a)) then CAssertFail
+  else if negb (Nat.eqb (b2n (is_some (a_epochs a)) + b2n (is_some (a_updates a)) + b2n (is_some (a_samples a))) 1) then CAssertFail
+  else if negb (forallb side_asserts (a_sides a)) then CAssertFail
+  else match checkpoint (cfg_of_args a) (a_start_epoch a) (a_start_update a) (a_start_sample a) with
+       | Start e u s => Ok (cfg_of_args a) e u s
+       | NotImplemented => CNotImplemented
+       | AssertFail => CAssertFail
+       end.
+
+Definition init_state (e u s : Z) (pcs0 : list nat) : st :=
+  {| epoch := e; update := u; sample := s; siu := 0; salu := s; pcs := pcs0 |}.
+
+(* fuel that always suffices (proved in Corollaries.v): what remains of the
+   first given budget *)
 Definition default_fuel (c : cfg) (s : st) : nat :=
-  match bud c with
-  | Epochs e => Z.to_nat (e - epoch s)
-  | Updates u => Z.to_nat (u - update s)
-  | Samples x => Z.to_nat (x - sample s)
+  match bE c, bU c, bS c with
+  | Some e, _, _ => Z.to_nat (e - epoch s)
+  | None, Some u, _ => Z.to_nat (u - update s)
+  | None, None, Some x => Z.to_nat (x - sample s)
+  | None, None, None => 0%nat
   end.
 
-(* __iter__ *)
-Definition sampler_iter (c : cfg) (main_iter : Z -> list Z) (e u s : Z) : option (list event) :=
+(* __iter__ (None = its assertion fails / the loop never ends) *)
+Definition sampler_iter (c : cfg) (main_iter : Z -> list Z) (e u s : Z) (pcs0 : list nat) : option (list event) :=
   if zero_budget c then
-    if (e =? 0) && (u =? 0) && (s =? 0) then Some (eval_loop c 0 (offsets c) (sides c)) else None
-  else run c main_iter (default_fuel c (init_state e u s)) (init_state e u s).
+    if (e =? 0) && (u =? 0) && (s =? 0) then Some (eval_loop c 0 (offsets c) (sides c) pcs0) else None
+  else run c main_iter (default_fuel c (init_state e u s pcs0)) (init_state e u s pcs0).
 
 Definition render1 (e : event) : obs :=
   match e with
@@ -183,10 +286,10 @@ Definition render (l : list event) : list obs := map render1 l.
 Fixpoint batches_aux (cur : list Z) (l : list obs) : list (list Z) * bool :=
   match l with
   | [] => ([], match cur with [] => true | _ => false end)
-  | OSetEpoch _ :: l' => batches_aux cur l'
   | OYield f i :: l' =>
       if f then let '(bs, ok) := batches_aux [] l' in (rev (i :: cur) :: bs, ok)
       else batches_aux (i :: cur) l'
+  | _ :: l' => batches_aux cur l'
   end.
 Definition batches (l : list obs) := batches_aux [] l.
 
@@ -199,3 +302,34 @@ Fixpoint concat_lookup_aux (sizes : list Z) (di : nat) (idx : Z) : option (nat *
   end.
 Definition concat_lookup (c : cfg) (idx : Z) : option (nat * Z) :=
   concat_lookup_aux (dsN c :: map dslen (sides c)) 0 idx.
+
+(* _InterleavedCollator.__call__ on the fetched (dataset_idx, sample) pairs:
+   asserts one dataset per batch, dispatches to that dataset's collator (the
+   collator itself is abstract: the result names which one got which samples) *)
+Definition collate (items : list (nat * Z)) : option (nat * list Z) :=
+  match items with
+  | [] => None                       (* zip of an empty batch cannot be unpacked *)
+  | (d0, _) :: _ =>
+      if forallb (fun it => Nat.eqb d0 (fst it)) items then Some (d0, map snd items) else None
+  end.
+
+(* what a DataLoader (dataset = the concat dataset, batch_sampler, collate_fn)
+   delivers for one batch of indices, and for the whole stream *)
+Fixpoint fetch (c : cfg) (b : list Z) : option (list (nat * Z)) :=
+  match b with
+  | [] => Some []
+  | i :: b' => match concat_lookup c i, fetch c b' with
+               | Some it, Some r => Some (it :: r)
+               | _, _ => None
+               end
+  end.
+Definition deliver (c : cfg) (b : list Z) : option (nat * list Z) :=
+  match fetch c b with Some items => collate items | None => None end.
+Fixpoint loader_batches (c : cfg) (bs : list (list Z)) : option (list (nat * list Z)) :=
+  match bs with
+  | [] => Some []
+  | b :: bs' => match deliver c b, loader_batches c bs' with
+                | Some x, Some r => Some (x :: r)
+                | _, _ => None
+                end
+  end.
